@@ -1400,6 +1400,8 @@ func main() {
 			decisionFunc("driver/network/acquirepriv.go", "Driver.escalate"), decisionFunc("driver/network/acquirepriv.go", "Driver.deescalate"))
 		fmt.Fprintf(&sw, "(* channel/auth.go Channel.authenticateSSH, Channel.authenticateTelnet *)\nDefinition auth_ssh_code : list dstmt :=\n  %s.\nDefinition auth_telnet_code : list dstmt :=\n  %s.\n",
 			decisionFunc("channel/auth.go", "Channel.authenticateSSH"), decisionFunc("channel/auth.go", "Channel.authenticateTelnet"))
+		fmt.Fprintf(&sw, "(* driver/netconf/driver.go Driver.storeMessage, Driver.getMessage *)\nDefinition store_message_code : list dstmt :=\n  %s.\nDefinition get_message_code : list dstmt :=\n  %s.\n",
+			decisionFunc("driver/netconf/driver.go", "Driver.storeMessage"), decisionFunc("driver/netconf/driver.go", "Driver.getMessage"))
 		// the loops that apply an option list to an object (C19)
 		var ol []string
 		for _, lf := range [][2]string{{"driver/generic/driver.go", "NewDriver"}, {"driver/network/driver.go", "NewDriver"}, {"driver/netconf/driver.go", "NewDriver"},
